@@ -90,6 +90,11 @@ COMB = [
     ('HvAndOrMix', W3, 1, ['if (xa == 1 and xb == 2) or xc == 3:', '    self.r.put(1)', 'else:', '    self.r.put(0)']),
     ('HvNot', W3, 1, ['if not (xa == xb):', '    self.r.put(1)', 'else:', '    self.r.put(0)']),
     ('HvLocals', W3, 6, ['t = xa + xb', 'u = t * 2', 'if u > xc:', '    t = u - xc', 'self.r.put(t)']),
+    ('HvTruthAnd', W3, 1, ['if xa and xb:', '    self.r.put(1)', 'else:', '    self.r.put(0)']),
+    ('HvTruthOr', W3, 1, ['if xa or xb:', '    self.r.put(1)', 'else:', '    self.r.put(0)']),
+    ('HvTruthNot', W3, 1, ['if not xa:', '    self.r.put(1)', 'else:', '    self.r.put(0)']),
+    ('HvTruthMix', W3, 1, ['if xa and (xb or not xc):', '    self.r.put(1)', 'else:', '    self.r.put(0)']),
+    ('HvDangling', W3, 2, ['if xa > 3:', '    if xb > 3:', '        self.r.put(1)', 'else:', '    self.r.put(2)']),
     ('HvNested', W3, 4, ['if xa > 3:', '    if xb > 3:', '        self.r.put(1)', '    else:', '        if xc > 3:', '            self.r.put(2)', '        else:', '            self.r.put(3)',
                          'else:', '    self.r.put(4 + (xb & 1))']),]
 
@@ -168,11 +173,58 @@ class HvUseBeforeSet(Logic):
         if self.s > 20:
             self.s = 1
         self.q.prepare(self.s * 3)
+
+
+class HvAugAssign(Logic):
+    def __init__(self, parent, name, a, en, q, p):
+        super().__init__(parent, name)
+        self.a = self.addIn('a', a)
+        self.en = self.addIn('en', en)
+        self.q = self.addOut('q', q)
+        self.p = self.addOut('p', p)
+        self.total = 0
+        self.n = 0
+
+    def clock(self):
+        if self.en.get():
+            self.total += self.a.get()
+            self.n += 1
+        self.total &= 63
+        self.n %= 5
+        self.q.prepare(self.total)
+        self.p.prepare(self.n * 2)
+'''
+
+
+STRUCT_SRC = '''
+
+class HvStage(Logic):
+    """user-level structural class (no structureName) whose content depends on a constructor argument"""
+    def __init__(self, parent, name, a, r, registered):
+        super().__init__(parent, name)
+        a = self.addIn('a', a)
+        r = self.addOut('r', r)
+        if registered:
+            m = self.wire('m', a.getWidth())
+            Not(self, 'inv', a, m)
+            Reg(self, 'reg', m, r)
+        else:
+            Not(self, 'inv', a, r)
+
+
+class HvLane(Logic):
+    def __init__(self, parent, name, a, r, registered):
+        super().__init__(parent, name)
+        a = self.addIn('a', a)
+        r = self.addOut('r', r)
+        m = self.wire('m', a.getWidth())
+        HvStage(self, 'st', a, m, registered)
+        Buf(self, 'out', m, r)
 '''
 
 
 def overlay_source():
-    return HEADER + '\n'.join(comb_case(n, ins, lines) for n, ins, rw, lines in COMB) + SEQ_SRC
+    return HEADER + '\n'.join(comb_case(n, ins, lines) for n, ins, rw, lines in COMB) + SEQ_SRC + STRUCT_SRC
 
 
 def transpile(D, obj):
@@ -311,7 +363,8 @@ def run(ctx, sm, facts):
     for name, build, st, flt in (
             ('HvAccum', lambda D: D.make('HvAccum', 'dut', D.wire('a', 4), D.wire('en'), D.wire('clr'), D.wire('q', 8), rel=CASES_REL), ['acc', 'last'], None),
             ('HvMatch', lambda D: D.make('HvMatch', 'dut', D.wire('go'), D.wire('x', 3), D.wire('y', 5), rel=CASES_REL), ['state'], None),
-            ('HvUseBeforeSet', lambda D: D.make('HvUseBeforeSet', 'dut', D.wire('a', 3), D.wire('q', 8), rel=CASES_REL), ['s'], None)):
+            ('HvUseBeforeSet', lambda D: D.make('HvUseBeforeSet', 'dut', D.wire('a', 3), D.wire('q', 8), rel=CASES_REL), ['s'], None),
+            ('HvAugAssign', lambda D: D.make('HvAugAssign', 'dut', D.wire('a', 3), D.wire('en'), D.wire('q', 6), D.wire('p', 4), rel=CASES_REL), ['total', 'n'], None)):
         r = run_case(ctx, f2, name, build, rnd, nseq, 30, st, where=where + ' (case %s)' % name, input_filter=flt)
         counts[r] = counts.get(r, 0) + 1
     # ---- in-tree blocks the generator transpiles
